@@ -70,6 +70,7 @@ type Exec struct {
 	declOwner  map[string]string
 	decAtHead  map[*ssa.BasicBlock]string
 	axiomTerms []axiomTerm
+	axiomNames map[string]bool
 	name       string
 	curBlock   *ssa.BasicBlock
 	famBirth   map[string]string // family version symbol -> $alloc symbol current when the version was created
